@@ -416,7 +416,9 @@ def configs():
     return out
 
 
-FALLBACKS = [("es-mx", "es"), ("en-us", "en"), ("sv-fi", "sv"), ("xx", "en"), ("de", "en"), ("zh-cn", "en"), ("en-gb-oed", "en-gb")]
+FALLBACKS = [("es-mx", "es"), ("en-us", "en"), ("sv-fi", "sv"), ("xx", "en"), ("de", "en"), ("zh-cn", "en"), ("en-gb-oed", "en-gb"),
+             # the customary spelling of a language tag writes the region in capitals: it names the same shipped rules
+             ("zh-TW", "zh-tw"), ("en-GB", "en-gb"), ("es-MX", "es"), ("sv-SE", "sv")]
 
 
 def main(tier):
